@@ -81,8 +81,8 @@ CHECKS = {
          "Ten programs over persisted inputs, interned values, tracked structs and functions (plus one with a non-persisted function between two persisted ones, whose dependencies must be flattened) x all histories of depth 4-5 over writes, requests and RoundTrip at every position: values equal the reference before and after every round trip; a result that was valid when the database was serialized is not re-executed afterwards while its inputs are unchanged; after any later writes the restored database still equals the reference and a fresh database. Genuine defects found: one repaired (fix: commit cc47c5f), two listed as known findings.",
          "Bounded; salsa's persistence build (feature persistence) is the unit under test here.", "5/C26"),
  "C19": ("E3 proto", "exhaustive preemption-bounded schedule exploration of the real code with protocol monitors on the H2 trace of every schedule (layer 1); explicit-state exploration of a model of the protocol bound to the code by replaying every real trace on the model (layers 2-3)",
-         "Every schedule of the C14/C16/C18/C20/C21 harnesses (cross-thread cycles with lock transfer, panicking and cancelled computations, readers blocked on each other) is re-explored with hook H2 recording every wait / wake / resume / transfer / release together with a copy of the dependency-graph state; on every event: the wait graph is acyclic and no wait is entered towards a thread that (transitively) waits for the waiter; the transfer relation is a forest with an exact inverse index; each blocked thread is woken exactly once, with the result of the computation it waited for (completed / panicked / cancelled, or completed on hand-over of ownership), and resumes exactly once with it; every waiter's edge points at the thread that owns the awaited query through the transfer chain; releasing a query leaves nobody waiting on it or on queries transferred to it; nobody is left blocked at the end. Deadlock/livelock are reported by the engine.",
-         "Hook H2 (feature salsa_verif) only copies state under the lock. SC interleavings; bounds as the borrowed harnesses.", "5/C19"),
+         "Every schedule of the C14/C16/C18/C20/C21 harnesses (cross-thread cycles with lock transfer, panicking and cancelled computations, readers blocked on each other) is re-explored with hook H2 recording every wait / wake / resume / transfer / release together with a copy of the dependency-graph state; on every event: the wait graph is acyclic and no wait is entered towards a thread that (transitively) waits for the waiter; the transfer relation is a forest with an exact inverse index; each blocked thread is woken exactly once, with the result of the computation it waited for (completed / panicked / cancelled, or completed on hand-over of ownership), and resumes exactly once with it; every waiter's edge points at the thread that owns the awaited query through the transfer chain; releasing a query leaves nobody waiting on it or on queries transferred to it; nobody is left blocked at the end. Deadlock/livelock are reported by the engine. Layer 3: every recorded trace is replayed on a model of the dependency graph (mc/drv/src/pmodel.rs, transcribed operation by operation); after every operation the model state must equal the copy of the real state. Layer 2: breadth-first exploration of all reachable states of that model closed by an environment transcribed from sync.rs / fetch.rs / execute.rs (claim, cycle detection, transitive cycle-head resolution, outer-cycle choice, lock transfer, re-entrant claim, one extra iteration of outermost heads, panics with poisoning) for 2-3 threads over 10 (quick) / 14 (thorough) call graphs of 2-4 queries, every assignment of entry queries and 0-2 panics: the same invariants in every state, no operation precondition violated, no deadlock, dependency graph empty when all threads are done.",
+         "Hook H2 (feature salsa_verif) only copies state under the lock. SC interleavings; bounds as the borrowed harnesses. The environment of layer 2 is an abstraction of execute.rs/fetch.rs (every claimed provisional query is re-executed; values are not modelled); it is bound to the code only through the model operations it calls.", "5/C19"),
 }
 
 NOT_YET = {}
@@ -114,14 +114,14 @@ def main():
             "guard": "cargo feature salsa_verif (off by default)",
             "enable": "the harness crates depend on salsa = { path = \"/repo\" } and enable the feature through ql's `hooks` feature",
             "baseline_off_cmd": "cd /repo && cargo nextest run --workspace --no-fail-fast --tool-config-file pb:/w/lib/nextest.toml --profile pb --test-threads 8 --offline || cargo test --workspace --no-fail-fast --offline",
-            "source_commits": ["390127b", "7850f91"],
+            "source_commits": ["390127b", "7850f91", "a4e4c7a"],
             "add_only": True,
         },
         "engines": [
             {"name": "E1 histx", "path": "/verif/mc/drv/src/e1.rs", "serves_properties": [c["property_id"] for c in checks if c["engine"] == E1],
              "kind_free_text": "bounded-exhaustive enumeration of operation histories, each replayed on a fresh real salsa database; oracles: reference interpreter, fresh-database differential, log monitors"},
             {"name": "E3 proto", "path": "/verif/mc/drv/src/proto.rs", "serves_properties": ["C19"],
-             "kind_free_text": "protocol monitors over hook H2 traces of every explored schedule; model of the claim/wait/transfer protocol with conformance replay"},
+             "kind_free_text": "protocol monitors over hook H2 traces of every explored schedule; model of the claim/wait/transfer protocol (pmodel.rs) with conformance replay of every real trace; explicit-state BFS of the model under an environment (pexplore.rs)"},
             {"name": "E4 edgex", "path": "/verif/mc/drv/src/e4.rs", "serves_properties": ["C25"],
              "kind_free_text": "exhaustive input enumeration of the edge encoding through hook H1"},
             {"name": "E2 ctl", "path": "/verif/mc/ctl/src/engine.rs", "serves_properties": [c["property_id"] for c in checks if c["engine"] == E2],
